@@ -34,7 +34,7 @@ CHECKS = {
    note="Trusted: the snapshot covers the whole per-case sandbox (two directory levels above the destination). Exit status is not judged.", ref="4 C12"),
  "C13": dict(level="exploration", technique="property-based testing (Hypothesis): metamorphic relation (same catalogue, marker-imitating file bodies) + direct identification oracle",
    text="Well-formed discs of each variant are written twice with different file bodies (random vs bodies imitating the Watford/Opus/side-2 markers); identified format, slot count, volumes, geometry and all listings must be what the markers define and identical for both.",
-   note="Trusted: generator's definition of a complete (excluded) forged Opus table; format name read from --verbose.", ref="4 C13"),
+   note="Trusted: generator's definition of a complete (excluded) forged Opus table; format name read from --verbose. One recorded known finding (a .ddd with a blank second side whose side-0 file data in sectors 16-17 passes for a catalogue is probed as 16 sectors per track): printed as KNOWN-FINDING, every other body-dependent change is a violation.", ref="4 C13"),
  "C17": dict(level="exploration", technique="property-based testing (Hypothesis): boundary-value generation around volume/surface/slot ends with a prefix-of-in-bounds-bytes oracle (ASan build)",
    text="A probe entry ends -2..+2 (and further) sectors around every Opus volume end, surface end, interleaved side end and MMB slot end; anything printed or extracted must be a prefix of the in-bounds bytes, inside extents must read exactly, crossing extents must fail with a diagnostic.",
    note="Trusted: neighbouring regions hold different random data so foreign bytes cannot coincide.", ref="4 C17"),
